@@ -130,7 +130,7 @@ def run_shared(check, tier, seed, scratch, mine):
     check.cov['model_unsound_behaviours_len<=2'] = nun
     classify = make_classify(mine)
     # statement-level programs
-    res = run_trace_leg(check, scratch, 'programs', prog_gen(stmts, 2 if quick else 4, 0 if quick else 120000, seed, frac=0.5 if quick else 1.0),
+    res = run_trace_leg(check, scratch, 'programs', prog_gen(stmts, 3 if quick else 4, 8000 if quick else 120000, seed, frac=0.5 if quick else 1.0),
                         None, module='Trace_AutoFwd', describe=describe, classify=classify)
     # one-call grid over the signature universe and the resolution routes
     U2 = tlc.export_universe(scratch, 'ab', ['args'], ['kwargs'], 2)
@@ -155,7 +155,7 @@ def run_shared(check, tier, seed, scratch, mine):
                          'outer (3), callee shapes (3), same/distinct callees, n, written names; %s; one-call grid: %d seeded (outer in the %d star-bearing '
                          'signatures, callee in the 220-signature universe, written call, 8 resolution routes), executed on the complete call set; '
                          'distinct by (program, signatures, choices)' % (
-                             len(stmts), 'every other one in the quick tier' if quick else 'all', 'none longer' if quick else '120000 seeded programs each of 3 and 4 statements',
+                             len(stmts), 'every other one in the quick tier' if quick else 'all', 'half of 8000 seeded programs of 3 statements' if quick else '120000 seeded programs each of 3 and 4 statements',
                              ngrid, len(UO)))
     check.assumptions += [
         'taint statements use benign values (a rebinding supplies () / {}, mutations touch an optional keyword-only callee parameter): with an adversarial '
